@@ -95,12 +95,18 @@ func VH_cli(nargs int, n int) {
 	for i := 0; i < nargs; i++ {
 		args = append(args, scriptName(n))
 	}
-	present := verifChoice(2) == 1
+	// the script path: missing, a readable file, or a directory of that name (exists, unreadable)
+	state := verifChoice(3)
+	present := state == 1
 	if nargs >= 1 {
 		verifAssume(usableName(args[1]))
 	}
 	verifSetArgs(args...)
-	verifSetFile(present, progClean)
+	if state == 2 {
+		verifSetFile(false, "<dir>")
+	} else {
+		verifSetFile(present, progClean)
+	}
 	verifSetStdin(0, true)
 	verifRunMain()
 	out, errText, status := verifProcStdout(), verifProcStderr(), verifProcExit()
@@ -218,6 +224,8 @@ var replPool = []string{
 	"\u09b2\u09c7\u09a8 = 0;",                // assignment to a built-in's name (the parser allows it): echo
 	"\u09a6\u09c7\u0996\u09be\u0993 1.",      // ends in digits and a point: syntax error (the line has no newline behind it)
 	"/* note *",                              // unterminated comment whose last character is '*'
+	"\"abc\" * 2;", // a string that is no numeral under arithmetic: fails
+	"5 - \"abc\";", // the same string again: fails on its own, so it fails after the line above too
 	"\u09af\u09a4\u0995\u09cd\u09b7\u09a3 (\u09b8\u09a4\u09cd\u09af) { z; }", // a loop that only a failure ends: the line is over at its first diagnostic
 }
 
@@ -380,6 +388,29 @@ func VH_classify(k int) {
 // originTexts: texts NFC would rewrite (cf. nfcTexts of the interpreter harness) and plain ones.
 var originTexts = []string{"cafe\u0301", "k\u09df", "\u09ac\u09dc", "\u0995\u09c7\u09be", "abc", "\u0995\u09cb", "caf\u00e9"}
 
+// originTexts2: texts that cannot be property names: a replacement character, a blank inside,
+// a percent sign, a numeral.
+var originTexts2 = []string{"a\ufffdb", "x y", "100%", "\u09e7\u09e8", "\ufffd"}
+
+// VH_inputOrigin2 (C16): as VH_inputOrigin for texts that are not identifiers: compared with
+// the literal, concatenated with the empty string, shown inside an array, stored in a property.
+func VH_inputOrigin2() {
+	t := originTexts2[verifChoice(len(originTexts2))]
+	src := "\u09a7\u09b0\u09bf a = \u0987\u09a8\u09aa\u09c1\u099f();\n" +
+		"\u09a6\u09c7\u0996\u09be\u0993 a == \"" + t + "\";\n" +
+		"\u09a6\u09c7\u0996\u09be\u0993 (a + \"\") == a;\n" +
+		"\u09a6\u09c7\u0996\u09be\u0993 [a, \"" + t + "\"];\n" +
+		"\u09a7\u09b0\u09bf o = {};\no.k = a;\n" +
+		"\u09a6\u09c7\u0996\u09be\u0993 o.k == \"" + t + "\";\n" +
+		"\u09a6\u09c7\u0996\u09be\u0993 o;\n"
+	verifSetArgs("borno", "a.bn")
+	verifSetFile(true, src)
+	verifSetStdinText(t)
+	verifRunMain()
+	verifAssert("input-and-literal-program-runs", verifProcExit() == 0 && verifProcStderr() == "")
+	verifAssert("same-text-same-string-whatever-its-origin", verifProcStdout() == "true\ntrue\n["+t+" "+t+"]\ntrue\nmap[k:"+t+"]\n")
+}
+
 // VH_inputOrigin (C16): the same text arriving from ইনপুট and written as a literal is the same
 // string: equal under ==, the same under + and as a property key.
 func VH_inputOrigin() {
@@ -507,4 +538,20 @@ func VH_replDeep(depth int, times int) {
 	want += ">> 3\n>> 3\n>> hi\n>> "
 	verifAssert("session-exits-0", verifProcExit() == 0)
 	verifAssert("every-line-responds-as-in-a-fresh-session", verifProcStdout() == want)
+}
+
+// VH_scriptLong (C18 / C19): a script longer than one read buffer whose text has a multi-byte
+// character beginning at byte offset off (around 4096, 8192): the program prints its string
+// whole, and the same with one more blank before the first token — however the file is read.
+func VH_scriptLong(off int) {
+	kw := "\u09a6\u09c7\u0996\u09be\u0993"
+	body := strings.Repeat("a", off-len(kw)-2) + "\u0995\u09cd\u09b7\u09cb" + strings.Repeat("b", 20)
+	blanks := verifChoice(3)
+	src := strings.Repeat(" ", blanks) + kw + " \"" + body + "\";\n" + kw + " 1;\n"
+	verifSetArgs("borno", "a.bn")
+	verifSetFile(true, src)
+	verifSetStdinText()
+	verifRunMain()
+	verifAssert("clean-script-exit-0", verifProcExit() == 0 && verifProcStderr() == "")
+	verifAssert("layout-does-not-change-what-a-long-script-prints", verifProcStdout() == body+"\n1\n")
 }
